@@ -226,6 +226,7 @@ inline std::string jesc(const std::string& s) {
 
 struct Viol {
   std::string key, msg;
+  std::string at; // optional "k=v k=v" narrowing options for the replay
 };
 
 struct Report {
@@ -240,7 +241,7 @@ struct Report {
     va_start(ap, fmt);
     vsnprintf(buf, sizeof buf, fmt, ap);
     va_end(ap);
-    viol.push_back(Viol{key, buf});
+    viol.push_back(Viol{key, buf, ""});
   }
 };
 
@@ -253,8 +254,9 @@ inline void emit_result(FILE* f, long id, const Report& r,
                         const std::string& stats_json) {
   fprintf(f, "{\"id\":%ld,\"viol\":[", id);
   for (size_t i = 0; i < r.viol.size(); ++i)
-    fprintf(f, "%s{\"key\":\"%s\",\"msg\":\"%s\"}", i ? "," : "",
-            jesc(r.viol[i].key).c_str(), jesc(r.viol[i].msg).c_str());
+    fprintf(f, "%s{\"key\":\"%s\",\"msg\":\"%s\",\"at\":\"%s\"}",
+            i ? "," : "", jesc(r.viol[i].key).c_str(),
+            jesc(r.viol[i].msg).c_str(), jesc(r.viol[i].at).c_str());
   fprintf(f, "],\"stats\":%s}\n", stats_json.c_str());
   fflush(f);
 }
